@@ -361,6 +361,45 @@ def _plain_arg(v, depth=0):
     return False
 
 
+def _carries_observation(v, depth=0):
+    """does the value contain something read from the lock-protected state (a field under <locked>, the result of a
+    state method)?"""
+    if not isinstance(v, tuple) or depth > 8:
+        return False
+    if v and v[0] == 'ret':
+        return True
+    if v and v[0] == 'init' and len(v) > 1 and isinstance(v[1], tuple) and '<locked>' in v[1]:
+        return True
+    return any(_carries_observation(x, depth + 1) for x in v if isinstance(x, tuple))
+
+
+def _look_then_act(F, path, state_fn_adt):
+    """several acquisitions of the lock on one path, of which at most one mutates - through exactly one state method
+    whose arguments carry nothing observed under an earlier acquisition"""
+    regions = []
+    for e in path.events:
+        if e['k'] == 'lock' and e.get('fn') not in state_fn_adt:
+            regions.append({'mut': [], 'direct': False})
+        elif not regions:
+            continue
+        elif e['k'] == 'call' and e.get('mode') == 'inline' and e['callee'] in state_fn_adt \
+                and e.get('fn') not in state_fn_adt and (e.get('argtys') or [''])[0].startswith('&mut'):
+            regions[-1]['mut'].append(e)
+        elif e['k'] in ('write', 'take', 'replace', 'update_waker', 'qop') and e.get('fn') not in state_fn_adt:
+            loc = e.get('loc') or e.get('slot') or e.get('queue')
+            if loc and '<locked>' in loc and not (e['k'] == 'qop' and e['op'] in ('is_empty', 'peek_first', 'peek_last', 'peek_min')):
+                regions[-1]['direct'] = True
+    mutating = [r for r in regions if r['mut'] or r['direct']]
+    if len(mutating) > 1:
+        return False
+    for r in mutating:
+        if r['direct'] or len(r['mut']) != 1:
+            return False
+        if any(_carries_observation(a) for a in r['mut'][0]['args'][1:]):
+            return False
+    return True
+
+
 # the only public operation that is documented to perform two transitions
 ALLOWED_COMBOS = {
     ('channel::mpmc::if_alloc::shared::GenericReceiver', ('clear', 'close')):
@@ -431,6 +470,14 @@ def wrapper_discipline(C, R, cfg, state_adts, rule):
             if any(fn.get('impl_adt') == adt_ and (fn.get('impl_trait') or '').endswith('ops::Drop')
                    for (adt_, _combo) in ALLOWED_COMBOS):
                 R.ok(rule, '%s|locks twice: the documented close-then-discard of the last receiver' % fn['path'])
+            elif _look_then_act(F, path, state_fn_adt):
+                # read-only critical sections followed (or preceded) by ONE complete transition that is handed nothing
+                # those sections observed: each section is atomic on its own, an early return reports what a
+                # read-only section saw (a linearization point), and the transition is judged for every state it can
+                # meet - so nothing depends on the observation still being true
+                R.ok(rule, '%s|looks under the lock, then performs one complete transition with its own arguments|%s'
+                     % (fn['path'], path_cond(E, path)))
+                continue
             else:
                 # two MUTATING acquisitions are reported below (wrapper-not-thin); a read-only first acquisition may be
                 # harmless (re-validated under the second) or a check-then-act race - the per-transition rules cannot
@@ -473,7 +520,11 @@ def wrapper_discipline(C, R, cfg, state_adts, rule):
                     mut.append((seen_region, ev2))
             mut = [c for _r, c in mut]
             names = sorted(c['callee'].split('::')[-1] for c in mut)
-            combo_ok = len(mut) <= 1 or (fn.get('impl_adt'), tuple(names)) in ALLOWED_COMBOS
+            # the documented exception: the last mpmc receiver closes and then discards what is buffered - `close` plus
+            # ONE other transition, whatever it is called (what it may do is C08.R2 / C09.R8 / C11.R6's business)
+            combo_ok = len(mut) <= 1 or (fn.get('impl_adt'), tuple(names)) in ALLOWED_COMBOS or (
+                any(fn.get('impl_adt') == adt_ for (adt_, _c) in ALLOWED_COMBOS)
+                and (fn.get('impl_trait') or '').endswith('ops::Drop') and len(names) == 2 and 'close' in names)
             if not combo_ok or len(locks) == 0:
                 not_thin.append((fn, names,
                        '%s performs %d state transitions (%s) on one path: a public operation maps to exactly one '
